@@ -35,9 +35,9 @@ theorem msgF_vlen (v : VLenArrayMsg) (hwf : v.WF) (hsz : (encodeVLenArray v).len
 
 set_option linter.unusedSimpArgs false in
 set_option maxRecDepth 2000 in
-/-- Round trip of the `Slim` message through the proto3 wire format. -/
-theorem decodeSlim_encode (m : SlimMsg) (hwf : m.WF) (hnf : m.NF) (hsz : (encodeSlim m).length < 2 ^ 64) :
-    decodeSlim (encodeSlim m) = .ok m := by
+/-- Round trip of the `Slim` message through the proto3 wire format (the reading pass). -/
+theorem decodeSlimInto_encode (m : SlimMsg) (hwf : m.WF) (hnf : m.NF) (hsz : (encodeSlim m).length < 2 ^ 64) :
+    decodeSlimInto {} (encodeSlim m) = .ok m := by
   obtain ⟨b, ss, nt, inn, sb, st, ip, lp, lv, u⟩ := m
   obtain ⟨hb, hss, hst, hnt, hinn, hsb, hip, hlp, hlv⟩ := hwf
   simp only at hb hss hst hnt hinn hsb hip hlp hlv
@@ -46,7 +46,7 @@ theorem decodeSlim_encode (m : SlimMsg) (hwf : m.WF) (hnf : m.NF) (hsz : (encode
   unfold encodeSlim encodeSlimKnown at hsz
   simp only [List.length_append] at hsz
   have lst := encPackedF_payload_le 32 st
-  unfold decodeSlim decodeSlimInto encodeSlim encodeSlimKnown
+  unfold decodeSlimInto encodeSlim encodeSlimKnown
   simp only [List.append_assoc]
   rw [decodeMsg_encVarintF slimH slimU {} { bigInnerCnt := b } (fno := 11) fnoOK (by omega) _
     (fun _ => by simp [slimH, scalarI32, toInt32_id hb]) (fun h0 => by subst h0; rfl)]
@@ -172,6 +172,22 @@ theorem decodeSlim_encode (m : SlimMsg) (hwf : m.WF) (hnf : m.NF) (hsz : (encode
   unfold decodeSlimInto at this
   rw [this]
   simp
+
+theorem slimI32OK_of_WF (m : SlimMsg) (h : m.WF) : slimI32OK m = true := by
+  obtain ⟨hb, hss, _, hnt, hinn, hsb, hip, hlp, hlv⟩ := h
+  simp [slimI32OK, i32ok, hb, hss,
+    optOK_of bitmapI32OK _ (fun b hb => bitmapI32OK_of_WF b (hnt b hb)),
+    optOK_of bitmapI32OK _ (fun b hb => bitmapI32OK_of_WF b (hinn b hb)),
+    optOK_of bitmapI32OK _ (fun b hb => bitmapI32OK_of_WF b (hsb b hb)),
+    optOK_of vlenI32OK _ (fun b hb => vlenI32OK_of_WF b (hip b hb)),
+    optOK_of vlenI32OK _ (fun b hb => vlenI32OK_of_WF b (hlp b hb)),
+    optOK_of vlenI32OK _ (fun b hb => vlenI32OK_of_WF b (hlv b hb))]
+
+/-- Round trip of the `Slim` message through the proto3 wire format. -/
+theorem decodeSlim_encode (m : SlimMsg) (hwf : m.WF) (hnf : m.NF) (hsz : (encodeSlim m).length < 2 ^ 64) :
+    decodeSlim (encodeSlim m) = .ok m := by
+  unfold decodeSlim
+  rw [decodeSlimInto_encode m hwf hnf hsz, checkI32_ok _ _ (slimI32OK_of_WF m hwf)]
 
 theorem protoSizeSlim_eq (m : SlimMsg) : protoSizeSlim m = (encodeSlim m).length := by
   simp only [protoSizeSlim, encodeSlim, encodeSlimKnown, List.length_append, encVarintF_length,
